@@ -240,7 +240,21 @@ def check_cache(rep, db, f, inst, fillers):
         else:
             n_hit += 1
             fr = (finds[0][1].extra or {}).get("ret")
-            same = lambda x: x == fr or (isinstance(x, tuple) and x[:1] in (("var",), ("tmp",)) and p.state.mem.get(("copyof", x)) == fr)
+            def same(x):
+                # the search result, also through copies and the iterator -> const_iterator converting constructor
+                for _ in range(6):
+                    if x == fr:
+                        return True
+                    if not (isinstance(x, tuple) and x[:1] in (("var",), ("tmp",))):
+                        return False
+                    c_ = p.state.mem.get(("copyof", x))
+                    if c_ is None:
+                        conv = next((e_ for e_ in evs if e_.kind == "CALL" and (e_.extra or {}).get("ret") == x and "iterator" in q.short(e_.a).lower() and len(e_.b) == 1), None)
+                        c_ = conv.b[0] if conv is not None else None
+                    if c_ is None:
+                        return False
+                    x = c_
+                return False
             if not (q.mentions(p.retval, lambda x: isinstance(x, tuple) and x[:1] == ("fld",) and x[2] == "second") and (q.mentions(p.retval, same) or any(x.kind == "CALL" and q.short(x.a) == "operator->" and x.c is not None and q.mentions(x.c, same) and q.mentions(p.retval, lambda y: y == (x.extra or {}).get("ret")) for x in evs))):
                 rep.violation("R-C11-cache", site(f), "a hit does not return the value cached for the looked-up name", f["loc"], inst)
                 return
